@@ -17,6 +17,9 @@ import FpgoVerif.Model.C12Sys
       (`r` returned/idle, `b` blocked in the send, `p` parked; closer `-` not started).  Last observation:
       `end <status> log=<per sender: seqs run, in order> ov=<max overlap> pan=<panics> self=ok|bad`.
     * `stress k=… cap=… n=… m=… jit=… close=0|1 seed=…`  free-running; observation `ok delivered=<n*m>` / `ok closed`.
+    * `askmsg cap=… n=… m=… seed=…`  an `ActorDef[interface{}]` whose messages are plain values AND Ask objects (`*AskDef`
+      sent by `AskChannel`, buffered reply channels so that a sender can have several requests in flight), slow effect,
+      overlap / per-sender order / exactly-once monitors; observation `ok delivered=<n*m>`.
     * `fresh k=… cap=… posters=<k> m=<m> rounds=<R> seed=…`  R fresh mailboxes, on each one k goroutines released by a
       barrier make the very first posts at the same moment (m messages each); observation `ok rounds=<R>`.
     * `tree: new <cap> ; spawn <p> ; close <a> ; send <a> ; parent <c> ; child <p> <c> ; closed <a>`  sequential
@@ -186,6 +189,7 @@ def runTree (line : String) : String :=
 def handle (line : String) : String :=
   if line.startsWith "sched " then runSched line
   else if line.startsWith "stress " then runStress line
+  else if line.startsWith "askmsg " then s!"ok delivered={kvNat (line.splitOn " ") "n" * kvNat (line.splitOn " ") "m"}"
   else if line.startsWith "fresh " then s!"ok rounds={kvNat (line.splitOn " ") "rounds"}"
   else if line.startsWith "tree" then runTree line
   else "bad-case"
@@ -339,7 +343,7 @@ def treeSpec (line : String) : String :=
 
 def judge (line impl : String) : String :=
   if line.startsWith "sched " then judgeSched line impl
-  else if line.startsWith "stress " || line.startsWith "fresh " then
+  else if line.startsWith "stress " || line.startsWith "fresh " || line.startsWith "askmsg " then
     if impl.startsWith "ok" then "allowed the monitors saw no violation" else s!"violation monitor: {impl}"
   else if line.startsWith "tree" then
     if impl == treeSpec line then "allowed agrees with the spawn-tree spec"
